@@ -147,6 +147,23 @@ def skeleton(text):
         out.append("|closure|" if t.startswith("|") else t)
     return out
 
+HARD_OPS = set("<< >> % / ^ <<= >>= %= /= *= ^= &= |=".split())
+NOT_AN_OPERAND = set("return in mut as let if while match else move ref dyn impl for loop break where".split())
+def hard_arith(text):
+    """operators of the arithmetic an SMT solver does not decide unprompted (nonlinear, bit-vector) in space-joined token text"""
+    toks = re.sub(r"//[^\n]*", " ", text).split()
+    out = []
+    operand_end = lambda k: k >= 0 and re.match(r"[\w)\]]", toks[k][-1]) and toks[k] not in NOT_AN_OPERAND
+    for i, t in enumerate(toks):
+        # the tokenizer keeps `>` `>` and `<` `<` apart (generics): a shift has an operand on both sides
+        if t in (">", "<") and i + 2 < len(toks) and toks[i + 1] in (t, t + "=") and operand_end(i - 1) and re.match(r"[\w(]", toks[i + 2]) and toks[i + 2] not in ("where", "for", "as"):
+            out.append(t + t)
+        if t in HARD_OPS:
+            out.append(t)
+        elif t in ("*", "&", "|") and i > 0 and re.match(r"[\w)\]]", toks[i - 1][-1]) and toks[i - 1] not in NOT_AN_OPERAND:
+            out.append("binary" + t)
+    return out
+
 def is_subsequence(a, b):
     it = iter(b)
     return all(any(x == y for y in it) for x in a)
@@ -504,10 +521,16 @@ def _run_unit_inner(unit, workdir, seed, rlimit, do_canary, keep, structural):
             extra = k_new - k_old
             if extra:
                 reshaped[key] = " ".join(sorted(extra.elements()))
+            # ... and the same for ARITHMETIC THE SOLVER DOES NOT DECIDE UNPROMPTED: a multiplication, division, remainder, shift or
+            # bit operation the function did not have (`x / 2` written as `x >> 1`) needs proof text (nonlinear / bit-vector lemmas)
+            # that nobody wrote for it
+            extra_a = collections.Counter(hard_arith(getattr(it_, "new_text", ""))) - collections.Counter(hard_arith(getattr(it_, "old_text", "")))
+            if extra_a:
+                reshaped[key] = (reshaped.get(key, "") + " new nonlinear / bit-vector operators: " + " ".join(sorted(extra_a.elements()))).strip()
         if reshaped:
             inconclusive = [f for f in fails if f.get("source") and f["source"]["item"] in reshaped]
             if inconclusive and len(inconclusive) == len(fails):
-                ex_ = Undecided("unit %s: the repository gave %s control flow its proof text was not written for (new skeleton tokens among: %s); %d obligation(s) "
+                ex_ = Undecided("unit %s: the repository gave %s control flow or arithmetic its proof text was not written for (new: %s); %d obligation(s) "
                                 "of that function fail (%s) - a failed proof, not evidence against the code: not decided" % (
                                     unit, ", ".join(sorted(reshaped))[:200], "; ".join(reshaped.values())[:120], len(fails), ", ".join(f["obligation"] for f in fails[:4])))
                 ex_.try_structural = True
